@@ -118,8 +118,13 @@ class Exporter:
                 st['expr:star'] += 1
                 return '(star' + ''.join(' ' + self.n(p) for p in names[:-1]) + ')'
             if names == ['VALUE'] or names[0] in ('OLD', 'NEW'):
-                st['unmodelled:special-colref'] += 1
-                raise Unmodelled(f'special column reference {names}')
+                # visit_ColumnRef prints `VALUE`, and a leading `OLD` / `NEW`, WITHOUT quotes (they are meant
+                # for domain constraints and trigger functions): PostgreSQL folds an unquoted identifier
+                # to lower case, so the reference denotes value / old / new
+                st['colref:unquoted-keyword'] += 1
+                if any(isinstance(p, pgast.Star) for p in names):
+                    raise Unmodelled('star inside a column reference')
+                return '(c ' + ' '.join([self.n(names[0].lower())] + [self.n(p) for p in names[1:]]) + ')'
             st[f'colref:{len(names)}'] += 1
             if any(isinstance(p, pgast.Star) for p in names):
                 raise Unmodelled('star inside a column reference')
@@ -1560,11 +1565,39 @@ select (group Doc by .owner) { k := .key.owner.name, n := count(.elements), m :=
 '''
 
 
+# JSON output mode (json_build_object / json_agg serialisation paths), incl. named tuples whose element
+# names are OLD / NEW / VALUE or contain upper-case letters
+FIXED_JSON = {
+    'issues': '''
+select <tuple<OLD: int64, VALUE: str>>$0
+select <tuple<NEW: int64, b: str>>$0
+select <tuple<Alpha: int64, beta: array<tuple<Gamma: str, delta: int64>>>>$0
+select (OLD := 1, VALUE := 'x', NEW := [1, 2])
+select (for x in {(OLD := 1, VALUE := 'a')} union (x.OLD, x))
+with x := (for i in {1, 2} union (VALUE := i, Rest := (random(), i))) select (x, x.VALUE)
+select Issue { name, owner: { name }, t := (OLD := .name, New := .time_estimate) }
+select User { name, todo: { name, @rank } } filter .name = <str>$0
+select (Issue.name, (Issue.body, count(Issue.watchers)))
+select array_agg((a := Issue.name, B := Issue.time_estimate ?? 0))
+select <json>(select Issue { name, owner: { name } })
+select (group Issue by .status) { k := .key.status.name, n := count(.elements) }
+''',
+    'cards': '''
+select User { name, deck: { name, @count }, t := (VALUE := .deck_cost, n := count(.friends)) }
+select (for u in User union (NEW := u.name, d := array_agg(u.deck.name)))
+''',
+    'shop': '''
+select Item { name, dims, d2 := (W := .dims.w, H := .dims.h) }
+select Order { number, total, lines: { qty, amount } } filter .number = <int64>$n
+''',
+}
+
+
 def load_regressions():
     path = os.path.join(core.VERIF, 'corpus', 'C13', 'regressions.json')
     if not os.path.exists(path):
         return []
-    return [dict(schema=c['schema'], kind='regression', text=c['text'])
+    return [dict(schema=c['schema'], kind='regression', text=c['text'], **({'fmt': c['fmt']} if c.get('fmt') else {}))
             for c in json.load(open(path))['cases']]
 
 
@@ -1578,6 +1611,10 @@ def gen_population(rng, descs, n_random):
                 out.append(dict(schema=sname, kind='fixed', text=line.strip()))
     gens = {s: QGen(rng, d) for s, d in sorted(descs.items())}
     snames = sorted(gens)
+    for sname, txt in FIXED_JSON.items():
+        for line in txt.strip().split('\n'):
+            if line.strip():
+                out.append(dict(schema=sname, kind='fixed-json', text=line.strip(), fmt='json'))
     seen = {o['text'] for o in out}
     tries = 0
     n_fixed = len(out)
@@ -1591,7 +1628,11 @@ def gen_population(rng, descs, n_random):
         if text in seen:
             continue
         seen.add(text)
-        out.append(dict(schema=s, kind=kind, text=text))
+        q = dict(schema=s, kind=kind, text=text)
+        if rng.random() < 0.15:
+            q['fmt'] = 'json'
+            q['kind'] = kind + '@json'
+        out.append(q)
     return out
 
 
@@ -1714,6 +1755,62 @@ class Capture:
             return res
 
         pgc.compile_ir_to_sql_tree = wrapper
+        self.probes = collections.Counter()
+        self._install_probes()
+
+    def _install_probes(self):
+        """Observation-only wrappers around three places of the unmodified compiler that a code reading
+        flagged as suspicious; a hit means the suspicious situation was REACHED by a real compilation."""
+        from edb.ir import typeutils as irtyputils
+        from edb.pgsql import ast as pgast, types as pg_types
+        from edb.pgsql.compiler import astutils, pathctx
+        probes = self.probes
+
+        # (a) astutils.collapse_query collapsing a query that carries more than the one target
+        orig_collapse = astutils.collapse_query
+
+        def collapse_query(query):
+            res = orig_collapse(query)
+            if isinstance(query, pgast.SelectStmt) and res is not query and (
+                    query.where_clause is not None or query.sort_clause or query.group_clause
+                    or query.having_clause is not None or query.limit_count is not None
+                    or query.limit_offset is not None or query.distinct_clause or query.ctes or query.op):
+                probes['collapse-query-dropped-clause'] += 1
+            return res
+        astutils.collapse_query = collapse_query
+
+        # (b) pathctx.reverse_map_path_id: more than one map entry applies and they disagree
+        orig_rev = pathctx.reverse_map_path_id
+
+        def reverse_map_path_id(path_id, path_id_map):
+            if len(path_id_map) > 1:
+                outs = []
+                for outer_id, inner_id in path_id_map.items():
+                    new = irtyputils.replace_pathid_prefix(path_id, inner_id, outer_id)
+                    if new != path_id and new not in outs:
+                        outs.append(new)
+                if len(outs) > 1:
+                    probes['reverse-map-path-id-ambiguous'] += 1
+            return orig_rev(path_id, path_id_map)
+        pathctx.reverse_map_path_id = reverse_map_path_id
+
+        # (c) pg_types._get_ptrref_storage_info (lru_cache keyed on mutable PointerRef objects): a cached
+        #     answer that differs from a fresh computation
+        cached = pg_types._get_ptrref_storage_info
+        raw = getattr(cached, '__wrapped__', None)
+        if raw is not None:
+            def _get_ptrref_storage_info(ptrref, **kw):
+                res = cached(ptrref, **kw)
+                try:
+                    fresh = raw(ptrref, **kw)
+                except Exception:
+                    fresh = res
+                def tup(x):
+                    return None if x is None else (x.table_name, x.table_type, x.column_name, x.column_type)
+                if tup(fresh) != tup(res):
+                    probes['ptrref-storage-info-stale-cache'] += 1
+                return res
+            pg_types._get_ptrref_storage_info = _get_ptrref_storage_info
 
 
 def rewrite_cte_dependencies(tree, type_cte_names):
@@ -1803,14 +1900,19 @@ class Catalog:
         return sorted(cols) + SYSTEM_COLUMNS
 
 
-def compile_one(envm, cap: Capture, codegen, schema, text, tree_path=None):
+def compile_one(envm, cap: Capture, codegen, schema, text, tree_path=None, fmt=None):
     """One query through the REAL server compiler (edb.server.compiler.compile: EdgeQL -> IR -> SQL
     tree -> SQL text + type descriptors); the SQL tree and argmap are captured on the way."""
     from edb import errors
     rec = {}
     cap.calls.clear()
+    cap.probes.clear()
     try:
-        ctx = envm.server_context(schema)
+        if fmt == 'json':
+            from edb.server.compiler import enums as _enums
+            ctx = envm.server_context(schema, output_format=_enums.OutputFormat.JSON)
+        else:
+            ctx = envm.server_context(schema)
         grp = envm.server_compile(ctx, text)
     except errors.InternalServerError as e:
         return dict(status='ise', err=f'{type(e).__name__}: {str(e)[:300]}')
@@ -1820,6 +1922,8 @@ def compile_one(envm, cap: Capture, codegen, schema, text, tree_path=None):
         return dict(status='ise', err='RecursionError')
     except Exception as e:       # any other exception of the REAL compiler: an internal error, not infra
         return dict(status='ise', err=f'{type(e).__name__}: {str(e)[:300]}')
+    probes = dict(cap.probes)
+    cap.probes.clear()
     units = describe_units(grp)
     if not cap.calls:
         return dict(status='unmodelled', err='no SQL tree compiled for this statement', sql='', argmap=[],
@@ -1836,6 +1940,7 @@ def compile_one(envm, cap: Capture, codegen, schema, text, tree_path=None):
             tp = tree_path if k == 0 else tree_path.replace('.json.gz', f'.{k}.json.gz')
         recs.append(statement_record(ir, res, server, codegen, tp, type_ctes))
     rec = recs[0]
+    rec['probes'] = probes
     if len(recs) > 1:
         rec['extra'] = recs[1:]
     return rec
@@ -1916,10 +2021,15 @@ def worker_main(spec_path: str, out_path: str):
     with open(out_path, 'w') as out:
         out.write(json.dumps(dict(meta=dict(hashseed=os.environ.get('PYTHONHASHSEED'),
                                             startup_s=round(t_start, 1)))) + '\n')
-        for i, q in enumerate(spec['queries']):
+        order = list(enumerate(spec['queries']))
+        if spec.get('reverse'):
+            # the second process of a pair compiles the statements in the opposite order: the comparison then
+            # also shows whether the output depends on the compile HISTORY of the process (caches)
+            order.reverse()
+        for i, q in order:
             try:
                 rec = compile_one(envm, cap, codegen, schemas[q['schema']], q['text'],
-                                  tree_path=os.path.join(tree_dir, f'{i}.json.gz'))
+                                  tree_path=os.path.join(tree_dir, f'{i}.json.gz'), fmt=q.get('fmt'))
             except Exception:
                 rec = dict(status='worker-error', err=traceback.format_exc()[-1500:])
             rec['i'] = i
@@ -2479,7 +2589,8 @@ def mutants(line: str, rng):
 
 # ========================================================================= run
 def qkey(q):
-    return f"{q['schema']}:{hashlib.sha1(q['text'].encode()).hexdigest()[:10]}"
+    h = hashlib.sha1((q['text'] + ('\0' + q['fmt'] if q.get('fmt') else '')).encode()).hexdigest()[:10]
+    return f"{q['schema']}:{h}"
 
 
 # the integer literal `clauses.scan_check_ctes` draws with random.randint (non-pretty text)
@@ -2883,7 +2994,7 @@ def run(ctx: core.Ctx):
         for f in rp['failures']:
             d = f.get('detail')
             if isinstance(d, dict) and 'schema' in d and 'text' in d:
-                pop.append(dict(schema=d['schema'], kind='replay', text=d['text']))
+                pop.append(dict(schema=d['schema'], kind='replay', text=d['text'], fmt=d.get('fmt')))
         if not pop:
             pop = gen_population(rng, descs, 0)
     else:
@@ -2893,15 +3004,18 @@ def run(ctx: core.Ctx):
     ok, log = rustlex.build()         # once, here; the workers reuse the binary
     if not ok:
         raise core.Infra('cannot build edb_lex: ' + log[-400:])
-    seeds = (1, 2147483647)
+    # two hash seeds under which the small sets of PathAspect (a StrEnum: str hashes) iterate in opposite
+    # orders: {IDENTITY, VALUE}, {VALUE, SOURCE}, {VALUE, SERIALIZED} are va-id/va-so/va-se under 1 and
+    # id-va/so-va/se-va under 10
+    seeds = (1, 10)
     tmp = tempfile.mkdtemp(prefix='c13-')
     procs = []
     for sh in range(nshards):
         idx = list(range(sh, len(pop), nshards))
-        spec = dict(schemas=paths, queries=[pop[i] for i in idx])
-        sp = os.path.join(tmp, f'spec{sh}.json')
-        json.dump(spec, open(sp, 'w'))
         for hs in seeds:
+            spec = dict(schemas=paths, queries=[pop[i] for i in idx], reverse=(hs == seeds[1]))
+            sp = os.path.join(tmp, f'spec{sh}-{hs}.json')
+            json.dump(spec, open(sp, 'w'))
             op = os.path.join(tmp, f'out{sh}-{hs}.jsonl')
             procs.append((sh, hs, idx, op, spawn_worker(sp, op, hs)))
     ctx.log(f'{len(pop)} queries, {len(procs)} worker processes started '
@@ -3094,9 +3208,17 @@ def run(ctx: core.Ctx):
         for k, (xa, xb) in enumerate(zip(ea, eb), 1):
             items.append((dict(q, stmt=k), xa, xb, f'{qkey(q)}#{k}'))
             stats['script-statements'] += 1
+    probe_hits = collections.Counter()
+    probe_samples: dict = {}
     for i, (q, a, b, key) in enumerate(items):
+        for pname, n in (a.get('probes') or {}).items():
+            probe_hits[pname] += n
+            probe_samples.setdefault(pname, [])
+            if len(probe_samples[pname]) < 3:
+                probe_samples[pname].append(dict(schema=q['schema'], text=q['text'][:300]))
         status_hist[a['status']] += 1
-        base_detail = {'schema': q['schema'], 'text': q['text'], 'kind': q['kind'], 'stmt': q.get('stmt', 0)}
+        base_detail = {'schema': q['schema'], 'text': q['text'], 'kind': q['kind'], 'stmt': q.get('stmt', 0),
+                       'fmt': q.get('fmt')}
         # (c) determinism: two fresh processes, different PYTHONHASHSEED
         if a['status'] != b['status']:
             ctx.fail(f'nondet-status:{key}', 'compilation outcome differs between two processes',
@@ -3266,6 +3388,7 @@ def run(ctx: core.Ctx):
     if len(out) != len(qlines):
         raise core.Infra(f'driver returned {len(out)} lines for {len(qlines)}')
     n_checked = n_accept = 0
+    scope_kw: list = []
     known_refs = unknown_refs = 0
     mut_hist = collections.Counter()
     samples = []
@@ -3294,11 +3417,16 @@ def run(ctx: core.Ctx):
                 nm = a.get('names') or {}
                 diag = [re.sub(r'\bn\d+\b', lambda m: '"' + nm.get(m.group(0), m.group(0)) + '"', d)
                         for d in parts[4:]]
-                ctx.fail(f'scope:{key}',
-                         'the verified scope checker rejects the SQL emitted for this query: '
-                         + ' '.join(diag),
-                         {'schema': q['schema'], 'text': q['text'], 'kind': q['kind'],
-                          'diagnosis': diag, 'sql': a['sql'][:4000]})
+                det = {'schema': q['schema'], 'text': q['text'], 'kind': q['kind'], 'fmt': q.get('fmt'),
+                       'diagnosis': diag, 'sql': a['sql'][:4000]}
+                if a['stats'].get('colref:unquoted-keyword') and diag and all(
+                        re.match(r'^unresolved:"(old|new|value)"(\.|@)', d) for d in diag):
+                    # root cause identified: one report with a count
+                    scope_kw.append(det)
+                else:
+                    ctx.fail(f'scope:{key}',
+                             'the verified scope checker rejects the SQL emitted for this query: '
+                             + ' '.join(diag), det)
             if len(samples) < 4 and info % 37 == 0:
                 samples.append(dict(schema=q['schema'], query=q['text'], sql_bytes=len(a['sql']),
                                     argmap=a['argmap'], verdict=o[:80], tree=line[:300]))
@@ -3311,6 +3439,15 @@ def run(ctx: core.Ctx):
         else:
             _, mname = info
             mut_hist[mname + (':rejected' if o.startswith('bad') else ':accepted')] += 1
+    if scope_kw:
+        ctx.fail('scope:unquoted-keyword-colref',
+                 'emitted SQL references a column that does not exist: codegen.visit_ColumnRef prints the names '
+                 'OLD / NEW / VALUE without quotes (edb/pgsql/codegen.py:684-690, meant for trigger / domain-constraint '
+                 'DDL), so a named-tuple element of that name, referenced by output.py as a bare column of '
+                 '`unnest(..) AS ("OLD" int8, ..)` (edb/pgsql/compiler/output.py:182,391,590), is folded to lower case '
+                 'by PostgreSQL and resolves to nothing',
+                 {'schema': scope_kw[0]['schema'], 'text': scope_kw[0]['text'], 'fmt': scope_kw[0]['fmt'],
+                  'count': len(scope_kw), 'instances': scope_kw[:2]})
     for mname in ('fresh-qualifier',):
         if mut_hist.get(mname + ':accepted'):
             ctx.fail('mutant-accepted:' + mname, 'a reference to a range variable that exists nowhere was accepted',
@@ -3354,6 +3491,15 @@ def run(ctx: core.Ctx):
         'literal_expr_texts': sorted(k[18:] for k in stats if k.startswith('literal-expr-text:'))[:20],
         'trees_with_2plus_range_functions_in_one_from_list': n_multi_func,
         'statements_with_2plus_type_rewrite_ctes': n_rw2,
+        'candidate_probes': {
+            'about': 'situations in the UNMODIFIED compiler that a code reading flagged as suspicious; observed by '
+                     'wrapping the real functions; hits = times the situation was reached by a real compilation',
+            'probes': ['collapse-query-dropped-clause (astutils.collapse_query collapses a query that has WHERE / '
+                       'ORDER BY / LIMIT ...)', 'reverse-map-path-id-ambiguous (pathctx.reverse_map_path_id: several '
+                       'entries of view_path_id_map apply and disagree)', 'ptrref-storage-info-stale-cache '
+                       '(pg_types._get_ptrref_storage_info: cached answer != fresh computation)'],
+            'hits': dict(probe_hits), 'samples': probe_samples,
+            'second_process_compiles_in_reverse_order': True},
         'statements_with_dependent_type_rewrite_ctes': n_rw_dep,
         'mutants_on_real_trees': dict(mut_hist),
         'hand_cases': dict(hand_hist),
